@@ -28,6 +28,7 @@ func main() {
 			univName = hdr.Univ
 		}
 		u := schema.ByName(univName)
+		rootAdjust(a.Gen, u)
 		switch hdr.Part {
 		case "C02":
 			var rp e2eReplay
@@ -59,17 +60,57 @@ func main() {
 				os.Exit(1)
 			}
 			fmt.Println("no violation")
+		case "C08":
+			var rp outcomeReplay
+			a.LoadReplay(&rp)
+			var r *schema.Resource
+			for _, x := range u.Resources {
+				if x.Namespace == rp.Res {
+					r = x
+				}
+			}
+			w := NewWorld(u, DefaultConfig)
+			for _, o := range outcomes(a.Gen) {
+				if o.name != rp.Outcome {
+					continue
+				}
+				kind, detail := checkOutcome(w, a.Gen, r, r.Method(rp.Method), o)
+				fmt.Printf("%s.%s outcome %s\n", r.Name(), rp.Method, o.name)
+				if kind != "" && kind != "skip" {
+					fmt.Println("FAIL:", kind, detail, w.wireSummary())
+					os.Exit(1)
+				}
+			}
+			fmt.Println("no violation")
 		default:
 			report.Internal("unknown replay part %q", hdr.Part)
 		}
 		return
 	}
 	u := schema.ByName(univName)
+	rootAdjust(a.Gen, u)
 	switch a.Part {
 	case "C02":
 		partC02(a, rep, univName, u)
+	case "C08":
+		partC08(a, rep, univName, u)
 	default:
 		report.Internal("unknown part %q", a.Part)
 	}
 	rep.Write(a.Out)
+}
+
+// rootAdjust mirrors what the emitter does for the root generation: partial_update never
+// returns the entity there (the root runtime lacks that call; recorded under C12).
+func rootAdjust(gen string, u *schema.Universe) {
+	if gen != "root" {
+		return
+	}
+	for _, r := range u.Resources {
+		for _, m := range r.Methods {
+			if m.Name == "partial_update" {
+				m.ReturnEntity = false
+			}
+		}
+	}
 }
